@@ -89,3 +89,9 @@ CONTRACTS[M + "count_courses"] = dict(
               "feq(result * len(self.tuning), sum([(len(t) if is_list(t) else 1) for t in self.tuning]))")],
     split=[{"field_types": {"self.tuning": sh}} for sh in SHAPES], split_is_domain=True,
     properties=["C20"], battery="tuning_only")
+
+CONTRACTS["mingus.extra.tablature._get_width"] = dict(
+    params={"maxwidth": "int"}, returns="int", modifies=[],
+    ensures=[("one-two-or-three-bars-per-line",
+              "result == (maxwidth if maxwidth <= 60 else (maxwidth // 2 if maxwidth <= 120 else maxwidth // 3))")],
+    properties=["C20"], battery="small_ints_wide")
